@@ -1,11 +1,12 @@
 /* Harnesses for the findEventCandidates units (event unit, after the cut function). */
 int fec_nEvents; const struct EventTriggerInfo* fec_eti;
-int fec_gi, fec_gp; bool fec_g_listed; int fec_g_pos, fec_g_src, fec_g_wit; int fec_n0; Real fec_e0;
+int fec_gi, fec_gp, fec_gi_e; bool fec_wide; bool fec_g_listed; int fec_g_pos, fec_g_src, fec_g_src_e, fec_g_wit; int fec_n0; Real fec_e0; Real fec_last_w, fec_g_w;
 int nondet_int(void); Real nondet_real(void); bool nondet_bool(void);
 /* ghosts defined at file scope are zero-initialised: make them free inputs */
 static void fec_havoc_ghosts(void) {
   fec_nEvents = nondet_int(); fec_gi = nondet_int(); fec_gp = nondet_int(); fec_g_listed = nondet_bool(); fec_g_pos = nondet_int();
-  fec_g_src = nondet_int(); fec_g_wit = nondet_int(); fec_n0 = nondet_int(); fec_e0 = nondet_real();
+  fec_g_src = nondet_int(); fec_g_src_e = nondet_int(); fec_g_wit = nondet_int(); fec_n0 = nondet_int(); fec_e0 = nondet_real();
+  fec_gi_e = nondet_int(); fec_wide = nondet_bool(); fec_last_w = nondet_real(); fec_g_w = nondet_real();
 }
 
 #ifdef FEC_PLAIN
@@ -14,7 +15,7 @@ int idx_at(const struct IdxSeq* s, int i)
 { __CPROVER_assert(0 <= i && i < s->n, "Array_::operator[] index in range"); int r = s->data[i]; __CPROVER_assume(0 <= r && r < fec_nEvents); return r; }
 Real vec_get(const struct Vector* v, int k)
 { __CPROVER_assert(0 <= k && k < v->n, "Vector::operator[] index in range"); Real r = v->data[k]; __CPROVER_assume(FIN(r)); return r; }
-Real vf_mul3(Real a, Real b, Real c) { return nondet_real(); }
+Real vf_mul3(Real a, Real b, Real c) { Real r = nondet_real(); fec_last_w = r; return r; }
 Real estimateRootTime_model(Real tLow, Real fLow, Real tHigh, Real fHigh, Real bias, Real minWindow) {
   __CPROVER_assert(FIN(tLow) && FIN(tHigh) && FIN(fLow) && FIN(fHigh) && NN(bias) && FIN(minWindow) && tLow < tHigh && bias > 0 && minWindow > 0,
                    "estimateRootTime precondition: finite bracket tLow < tHigh, bias > 0, minWindow > 0");
@@ -27,6 +28,11 @@ Real estimateRootTime_model(Real tLow, Real fLow, Real tHigh, Real fHigh, Real b
    clauses of the contract are asserted one by one after the call (the code behind the loop runs under invariant && !cond).
    useViable selects the two uses of the function in takeOneStep: 0 = all nEvents triggers, 1 = narrowing a viable list. ---- */
 void* malloc(__CPROVER_size_t);
+#ifdef FEC_COVER
+#define FEC_COVER_POINT(c) __CPROVER_cover(c)
+#else
+#define FEC_COVER_POINT(c)
+#endif
 static void fec_induction(const bool useViable) {
   struct IntegratorRep S; const struct IntegratorRep* self = &S;
   const int nEvents = nondet_int(), nv = nondet_int();
@@ -44,15 +50,20 @@ static void fec_induction(const bool useViable) {
   struct RealSeq ts = { malloc(sizeof(Real) * (unsigned long)(nCand + 1)), nondet_int(), nCand }; struct RealSeq* timeEstimates = &ts;
   struct TrigSeq rs = { malloc(sizeof(Trigger) * (unsigned long)(nCand + 1)), nondet_int(), nCand }; struct TrigSeq* transitions = &rs;
   Real er = nondet_real(), nw = nondet_real(); Real *earliestTimeEst = &er, *narrowestWindow = &nw;
-  /* pointwise instance, for the ghost position, of the assumed invariant "a viable index is a trigger index" (see idx_at) */
-  __CPROVER_assume((useViable && 0 <= fec_gi && fec_gi < nv) ==> (0 <= vi.data[fec_gi] && vi.data[fec_gi] < nEvents));
+  /* definitions of the ghost constants; for the ghost position this includes the pointwise instance of the assumed invariant
+     "a viable index is a trigger index" (see idx_at) */
+  __CPROVER_assume(FEC_GHOST_CONSTANTS(viable, nCand));
   findEventCandidates__ind(self, nEvents, viable, useViable ? &vt : 0, tLow, eLow, tHigh, eHigh, bias, minWindow, candidates, timeEstimates, transitions, earliestTimeEst, narrowestWindow);
+  /* vacuity guards (run with --cover): the exit of the loop is reachable under the invariant with the ghost positions in use */
+  FEC_COVER_POINT(candidates->n > 2 && 0 <= fec_gi && fec_gi < nCand && fec_g_listed && fec_g_pos > 0 && 0 <= fec_gp && fec_gp < candidates->n && fec_gp != fec_g_pos && fec_g_wit > 0);
+  FEC_COVER_POINT(candidates->n == 0 && nCand > 3 && 0 <= fec_gi && fec_gi < nCand);
+  FEC_COVER_POINT(candidates->n > 0 && fec_wide && 0 <= fec_gi && fec_gi < nCand && !fec_g_listed);
   __CPROVER_assert(FEC_F1(viable, nCand), "findEventCandidates.post.1: the three delivered lists have equal length, no longer than the examined list");
   __CPROVER_assert(FEC_F2(viable, nCand), "findEventCandidates.post.2: an examined position is delivered exactly when its trigger changed sign in a monitored direction, with its index, reported direction and an estimate in the bracket");
   __CPROVER_assert(FEC_F3(viable, nCand), "findEventCandidates.post.3: every delivered index comes from an examined position whose trigger changed sign, and is a trigger index");
   __CPROVER_assert(FEC_F4(viable, nCand), "findEventCandidates.post.4: candidates are delivered in the order of the examined list");
   __CPROVER_assert(FEC_F5(viable, nCand), "findEventCandidates.post.5: earliestTimeEst == min of the delivered estimates (attained, and below every delivered estimate; Infinity if none)");
-  __CPROVER_assert(FEC_F6(viable, nCand), "findEventCandidates.post.6: narrowestWindow >= minWindow (Infinity if none)");
+  __CPROVER_assert(FEC_F6(viable, nCand), "findEventCandidates.post.6: minWindow <= narrowestWindow <= localisation requirement of every delivered candidate (Infinity if none)");
   /* the count abstraction through which the localisation loop sees this function (fec_abs.h) */
   __CPROVER_assert(FEC_ABS_NARROWED(candidates->n, useViable ? nv : -1), "findEventCandidates.abs.a: the list can only be narrowed");
   __CPROVER_assert(FEC_ABS_EMPTY(candidates->n, *earliestTimeEst, *narrowestWindow), "findEventCandidates.abs.b: no candidate -> Infinity, Infinity");
@@ -105,6 +116,7 @@ void h_fec_bounded(void) {
 #endif
 
 /* reachability behind the preconditions and the assumed element invariants */
+#ifndef FEC_COVER
 void h_fec_cover(void) {
   int nEvents = nondet_int(), nv = nondet_int(), n = nondet_int(); Real tLow = nondet_real(), tHigh = nondet_real(), bias = nondet_real(), minWindow = nondet_real();
   fec_havoc_ghosts();
@@ -115,3 +127,4 @@ void h_fec_cover(void) {
   __CPROVER_cover(tHigh - tLow > minWindow && MINWINDOW_VISIBLE(tLow, tHigh, minWindow));
   __CPROVER_cover(!(tHigh - tLow > minWindow));
 }
+#endif
